@@ -480,6 +480,57 @@ func runC02Emphasis(r *core.Run) {
 	}
 }
 
+// runC02InlineNesting: inline wrappers nested to depth d (emphasis, strong emphasis, inline link, image, code span; at
+// every level the inner part alone, behind "a " or in front of " a"), judged by the inline reference: links in links,
+// links in images in links, emphasis across brackets, code spans hiding everything.
+func runC02InlineNesting(r *core.Run) {
+	depth := core.Pick(r, 4, 5)
+	wr := [][2]string{{"*", "*"}, {"**", "**"}, {"[", "](u)"}, {"![", "](u)"}, {"`", "`"}, {"_", "_"}}
+	var docs []string
+	var rec func(inner string, d int)
+	rec = func(inner string, d int) {
+		docs = append(docs, inner)
+		if d == depth {
+			return
+		}
+		for _, w := range wr {
+			for _, v := range []string{inner, "a " + inner, inner + " a"} {
+				rec(w[0]+v+w[1], d+1)
+			}
+		}
+	}
+	rec("a", 0)
+	cfg := core.MustCfg(c02Cfg)
+	s := r.Sub("inline-nesting", fmt.Sprintf("%d documents: 'a' wrapped up to %d times in emphasis (* and _), strong emphasis, inline link, image or code span, at each level alone, behind 'a ' or in front of ' a'; as heading content and as a paragraph: output must equal the HTML the independent inline reference prescribes", len(docs), depth))
+	s.Planned = int64(len(docs))
+	s.Bound = fmt.Sprintf("depth ≤ %d, %d wrappers × 3 sibling positions", depth, len(wr))
+	core.ForEachIndex(len(docs), core.Workers(), func(w int) func(int) {
+		cv := core.NewConv(cfg)
+		return func(i int) {
+			ws := docs[i]
+			ref := emphRefHTML(ws)
+			got, ok := mustConvert(s, cv, []byte("# "+ws))
+			if ok && string(got) != "<h1>"+ref+"</h1>\n" {
+				s.Violate("differs-from-spec:inline-nesting:heading", cfg.String(), []byte("# "+ws), nil, "inline structure differs from what CommonMark 6.1-6.4 prescribes", "<h1>"+ref+"</h1>\n", string(got))
+			}
+			if emphParagraphSafe(ws) {
+				got, ok := mustConvert(s, cv, []byte(ws))
+				if ok && string(got) != "<p>"+ref+"</p>\n" {
+					s.Violate("differs-from-spec:inline-nesting:paragraph", cfg.String(), []byte(ws), nil, "inline structure differs from what CommonMark 6.1-6.4 prescribes", "<p>"+ref+"</p>\n", string(got))
+				}
+			}
+			s.Evals.Add(1)
+			s.Distinct(core.Hash([]byte(ref)))
+			if i%(len(docs)/6+1) == 0 {
+				s.AddSample(ws)
+			}
+		}
+	}, r.Expired)
+	s.States.Store(s.Evals.Load())
+	s.Transitions.Store(s.Evals.Load())
+	s.Done()
+}
+
 func runC02(r *core.Run) {
 	if bad, n := c02Validate(r); len(bad) > 0 {
 		fmt.Println("C02: the reference renderer disagrees with official examples (the check is broken, no verdict):")
@@ -492,6 +543,7 @@ func runC02(r *core.Run) {
 	}
 	runC02Spec(r)
 	runC02Emphasis(r)
+	runC02InlineNesting(r)
 	cfg := core.MustCfg(c02Cfg)
 	thorough := !r.Quick()
 
